@@ -210,7 +210,9 @@ SSE1Pad(st, c) ==
                          !.ents = @ \o [i \in 1..nA |-> Ent("A", 0, Slot, Rand(st.rc + i), TRUE)], !.rc = @ + nA]
     IN PadPairs(s1, "T", 0, Max(0, c.dsize - CountTab(st.ents, "T", 0)), FALSE)
 
-(* SSE-2 stores the identifier itself under a PRP label of (keyword, position) *)
+(* SSE-2 stores the identifier itself under a PRP label of (keyword, position).  The code's second loop (extra entries *)
+(* for identifiers that occur in more than param_max lists) never runs: param_max is derived from the maximal file     *)
+(* size (1 MiB -> several hundred thousand) and exceeds every list count here.                                         *)
 SSE2Kw(st, x) ==
     [st EXCEPT !.ents = @ \o [j \in 1..Len(x.ids) |-> Ent("I", 0, PRP(Key("K1"), Cat(<<x.w, NStr(j)>>)), x.ids[j], FALSE)]]
 
